@@ -46,6 +46,30 @@ const CLASSES: &[&str] = &[
 
 const LITS: &[u8] = b"abzABZ019 ._-\t]";
 
+/// the members a bracket expression is composed of (every kind the matcher distinguishes)
+const BR_LIT: &[&[u8]] = &[b"a", b"q", b"z", b"5", b"A", b"_", b".", b":", b"!", b"^", b"/", b"["];
+const BR_ESC: &[&[u8]] = &[b"\\a", b"\\-", b"\\]", b"\\\\", b"\\A", b"\\["];
+const BR_RANGE: &[&[u8]] = &[
+    b"a-f", b"f-a", b"0-9", b"A-Z", b"a-z", b"B-a", b"Z-y", b"_-z", b"a-a", b"---", b" -~", b"a-\\f", b"\\a-f", b"+--",
+];
+const BR_CLASS_ODD: &[&[u8]] = &[b"[:foo:]", b"[:ALPHA:]", b"[::]", b"[:digit", b"[:digit:", b"[:", b"[:]", b"[:alpha]"];
+
+fn gen_member(r: &mut Rng, out: &mut Vec<u8>) {
+    match r.below(16) {
+        0..=3 => out.extend_from_slice(*r.pick(BR_LIT)),
+        4..=5 => out.extend_from_slice(*r.pick(BR_ESC)),
+        6..=8 => out.extend_from_slice(*r.pick(BR_RANGE)),
+        9..=11 => {
+            out.extend_from_slice(b"[:");
+            out.extend_from_slice(r.pick(CLASSES).as_bytes());
+            out.extend_from_slice(b":]");
+        }
+        12 => out.extend_from_slice(*r.pick(BR_CLASS_ODD)),
+        _ => out.push(b'-'),
+    }
+}
+
+/// grammar-based: `[` negation? `]`? member* `]`? with the members in every order
 fn gen_bracket(r: &mut Rng, out: &mut Vec<u8>) {
     out.push(b'[');
     match r.below(6) {
@@ -56,59 +80,50 @@ fn gen_bracket(r: &mut Rng, out: &mut Vec<u8>) {
     if r.chance(1, 8) {
         out.push(b']');
     }
-    let n = 1 + r.usize(3);
+    if r.chance(1, 8) {
+        out.push(b'-');
+    }
+    let n = 1 + r.usize(4);
     for _ in 0..n {
-        match r.below(12) {
-            0..=3 => out.push(*r.pick(b"abzABZ019_.:!^/")),
-            4..=5 => {
-                let (a, b) = *r.pick(&[
-                    (b'a', b'z'),
-                    (b'A', b'Z'),
-                    (b'a', b'c'),
-                    (b'c', b'a'),
-                    (b'B', b'a'),
-                    (b'Z', b'y'),
-                    (b'0', b'9'),
-                    (b'_', b'z'),
-                    (b'A', b'z'),
-                    (b'a', b'a'),
-                    (b'-', b'-'),
-                    (b' ', b'~'),
-                ]);
-                out.push(a);
-                out.push(b'-');
-                if r.chance(1, 8) {
-                    out.push(b'\\');
-                }
-                out.push(b);
-            }
-            6..=7 => {
-                out.extend_from_slice(b"[:");
-                match r.below(10) {
-                    0 => out.extend_from_slice(b"foo"),
-                    1 => out.extend_from_slice(b"ALPHA"),
-                    2 => {}
-                    _ => out.extend_from_slice(r.pick(CLASSES).as_bytes()),
-                }
-                match r.below(10) {
-                    0 => out.push(b']'),
-                    1 => out.push(b':'),
-                    2 => {}
-                    _ => out.extend_from_slice(b":]"),
-                }
-            }
-            8 => {
-                out.push(b'\\');
-                out.push(*r.pick(b"a]\\-Ab[/"));
-            }
-            9 => out.push(b'-'),
-            10 => out.push(b'['),
-            _ => out.push(*r.pick(LITS)),
-        }
+        gen_member(r, out);
+    }
+    if r.chance(1, 8) {
+        out.push(b'-');
     }
     if !r.chance(1, 12) {
         out.push(b']');
     }
+}
+
+/// every bracket expression made of up to `len` members of `vocab`, with the given openings
+fn bracket_sequences(vocab: &[&[u8]], len: usize, openings: &[&[u8]]) -> Vec<Vec<u8>> {
+    let mut seqs: Vec<Vec<u8>> = vec![vec![]];
+    let mut last: Vec<Vec<u8>> = vec![vec![]];
+    for _ in 0..len {
+        let mut next = Vec::new();
+        for s in &last {
+            for m in vocab {
+                let mut x = s.clone();
+                x.extend_from_slice(m);
+                next.push(x);
+            }
+        }
+        seqs.extend(next.iter().cloned());
+        last = next;
+    }
+    let mut out = Vec::new();
+    for o in openings {
+        for s in &seqs {
+            if s.is_empty() && o.len() <= 1 {
+                continue;
+            }
+            let mut p = o.to_vec();
+            p.extend_from_slice(s);
+            p.push(b']');
+            out.push(p);
+        }
+    }
+    out
 }
 
 /// a structured pattern; also returns one text instantiated from it (a likely match)
@@ -576,6 +591,28 @@ fn corpus() -> Vec<(Vec<u8>, Vec<u8>)> {
         ("[B-a]", "a"),
         ("[Z-y]", "z"),
         ("[Z-y]", "Z"),
+        // `-` next to a POSIX class: the class resets the range start
+        ("[a[:digit:]-z]", "q"),
+        ("[a[:digit:]-z]", "-"),
+        ("[a[:digit:]-z]", "z"),
+        ("[a[:digit:]-z]", "5"),
+        ("[[:digit:]-z]", "q"),
+        ("[[:digit:]-z]", "-"),
+        ("[a-[:digit:]]", "5"),
+        ("[a-[:digit:]]", "["),
+        ("[a-[:digit:]]", "]"),
+        ("[[:alpha:]-[:digit:]]", "-"),
+        ("[[:alpha:]-[:digit:]]", "5"),
+        ("[[:digit:]-]", "-"),
+        ("[-[:digit:]]", "-"),
+        ("[a-f-z]", "q"),
+        ("[a-f-z]", "-"),
+        ("[!a[:digit:]-z]", "q"),
+        ("[][:digit:]-z]", "q"),
+        ("[][:digit:]-z]", "]"),
+        ("[[:foo:]-z]", "q"),
+        ("[a[:digit]-z]", "q"),
+        ("[\\a[:digit:]-z]", "q"),
         // witnesses of the defects repaired for this property
         ("[[:x]*b", "xb"),
         ("[[:x]a", "xa"),
@@ -765,6 +802,36 @@ fn main() {
         }
     }
     cx.rep.bucket(&format!("exhaustive:{}x{}x2", pats.len(), txts.len()));
+    // every order of bracket members: literal, escaped literal, range, reversed range, classes (known,
+    // unknown, unterminated), `-` — behind every opening (`[`, `[!`, `[^`, `[]`, `[!]`)
+    let vocab_q: &[&[u8]] = &[b"a", b"q", b"\\-", b"a-f", b"f-a", b"[:digit:]", b"[:alpha:]", b"[:foo:]", b"-", b"z"];
+    let vocab_t: &[&[u8]] = &[
+        b"a", b"q", b"\\-", b"\\]", b"a-f", b"f-a", b"0-9", b"[:digit:]", b"[:alpha:]", b"[:upper:]", b"[:foo:]", b"[:digit", b"-", b"z",
+    ];
+    let grammar = if args.thorough {
+        let mut g = bracket_sequences(vocab_t, 3, &[b"[", b"[!", b"[^", b"[]", b"[!]"]);
+        g.extend(bracket_sequences(vocab_q, 4, &[b"["]));
+        g
+    } else {
+        bracket_sequences(vocab_q, 3, &[b"[", b"[!", b"[]"])
+    };
+    for (k, p) in grammar.iter().enumerate() {
+        for t in [&b"q"[..], b"-", b"5", b"a", b"z", b"]", b"A", b":", b"d"] {
+            cx.triple(1, p, t, false);
+            if k % 7 == 0 {
+                cx.triple(2, p, t, false);
+            }
+        }
+        if k % 5 == 0 {
+            // the same expression without its closing bracket, and followed by a literal
+            cx.triple(1, &p[..p.len() - 1], b"q", false);
+            let mut q = p.clone();
+            q.push(b'x');
+            cx.triple(0, &q, b"qx", false);
+            cx.triple(0, &q, b"-x", false);
+        }
+    }
+    cx.rep.bucket(&format!("exhaustive:bracket-grammar:{}", grammar.len()));
     let pats2 = all_strings(b"[]!-ac:\\", if args.thorough { 5 } else { 4 });
     for p in &pats2 {
         for t in [&b"a"[..], b"b", b"c", b"-", b"]", b"[", b":", b"!", b"\\", b"B"] {
